@@ -121,15 +121,12 @@ ReachF(g, S, fuel) ==
   IN IF N = S \/ fuel = 0 THEN S ELSE ReachF(g, N, fuel - 1)
 Reachable(g) == ReachF(g, {g.start}, Len(g.nodes) + 1)
 
-(* no path longer than the number of nodes: the graph is acyclic *)
-RECURSIVE DepthF(_, _, _)
-DepthF(g, s, fuel) ==
-  IF fuel = 0 THEN 1
-  ELSE LET E == OutEdges(g, s) IN
-       IF E = {} THEN 0
-       ELSE 1 + CHOOSE m \in {DepthF(g, e[2], fuel - 1) : e \in E} :
-                    \A k \in {DepthF(g, e[2], fuel - 1) : e \in E} : m >= k
-Acyclic(g) == DepthF(g, g.start, Len(g.nodes) + 1) <= Len(g.nodes)
+(* acyclic: the nodes can be peeled off leaves first (a node all of whose successors are gone) *)
+RECURSIVE Peel(_, _)
+Peel(g, R) ==
+  LET leaves == {n \in R : \A e \in OutEdges(g, n) : e[2] \notin R} IN
+  IF leaves = {} THEN R = {} ELSE Peel(g, R \ leaves)
+Acyclic(g) == Peel(g, ToSet(g.nodes))
 
 DeterministicSym(g) ==
   \A i, j \in DOMAIN g.edges :
